@@ -82,9 +82,11 @@ var c06ExprFaults = []faultKind{
 	{"percent-undefined-call", "h1(nx % 3)"},
 }
 
-var c06StmtFaults = []string{"redecl", "redecl-list", "redecl-nil", "redecl-uninit", "redecl-noreturn", "break", "continue", "return", "returnval"}
+var c06StmtFaults = []string{"redecl", "redecl-list", "redecl-nil", "redecl-uninit", "redecl-noreturn", "redecl-param", "redecl-nil-param", "redecl-funcname", "redecl-self", "shadow-builtin-call",
+	"break", "continue", "return", "returnval", "return-multiline"}
 
-var c06StmtCtx = []string{"expr", "print", "var", "assign", "varlist", "return", "if-cond", "while-cond", "for-init", "for-cond", "for-inc", "elseif-cond"}
+var c06StmtCtx = []string{"expr", "print", "var", "assign", "varlist", "return", "if-cond", "while-cond", "for-init", "for-cond", "for-inc", "elseif-cond",
+	"ml-binary", "ml-call", "ml-array", "ml-object", "ml-cond"}
 
 var c06Wraps = []string{"group", "neg", "not", "binl", "binr", "bin-probe", "arr-elem", "obj-val", "arg", "arg-builtin", "index-recv", "index-idx",
 	"store-val", "store-idx", "store-recv", "prop-store-val", "prop-store-recv", "prop-recv", "or-left", "or-right", "and-right", "and-left", "callee", "nested-call", "eq"}
@@ -212,6 +214,10 @@ func (e *skEmit) emit(n *skNode, ind int) {
 		n.Line = e.add(ind, fmt.Sprintf("%s \"m%d\nmid\nend%d\";", KwPrint, n.Tag, n.Tag))
 	case "mlcomment":
 		n.Line = e.add(ind, fmt.Sprintf("/* comment %d\n   * still / comment\n*/", n.Tag))
+	case "vardecl":
+		n.Line = e.add(ind, fmt.Sprintf("%s vd%d = %d;", KwVar, n.Tag, n.Tag))
+	case "varlist":
+		n.Line = e.add(ind, fmt.Sprintf("%s va%d = 1, vb%d = va%d + 1;", KwVar, n.Tag, n.Tag, n.Tag))
 	case "blank":
 		n.Line = e.add(ind, "")
 		e.add(ind, fmt.Sprintf("// line comment %d \"not a string", n.Tag))
@@ -352,6 +358,39 @@ func (e *skEmit) emitFault(n *skNode, ind int) {
 		case "redecl-noreturn":
 			e.add(ind, fmt.Sprintf("%s r%d = h2(1, 2);", KwVar, t))
 			n.Line = e.add(ind, fmt.Sprintf("%s r%d = 3;", KwVar, t))
+		case "redecl-param":
+			e.add(ind, fmt.Sprintf("%s rp%d(p, q) {", KwFun, t))
+			e.add(ind+1, fmt.Sprintf("%s \"in%d\";", KwPrint, t))
+			n.Line = e.add(ind+1, fmt.Sprintf("%s q = 1;", KwVar))
+			e.add(ind+1, fmt.Sprintf("%s \"after%d\";", KwPrint, t))
+			e.add(ind, "}")
+			e.add(ind, fmt.Sprintf("rp%d(1, 2);", t))
+		case "redecl-nil-param":
+			e.add(ind, fmt.Sprintf("%s rp%d(p, q) {", KwFun, t))
+			e.add(ind+1, fmt.Sprintf("%s \"in%d\";", KwPrint, t))
+			n.Line = e.add(ind+1, fmt.Sprintf("%s p = 1;", KwVar))
+			e.add(ind+1, fmt.Sprintf("%s \"after%d\";", KwPrint, t))
+			e.add(ind, "}")
+			e.add(ind, fmt.Sprintf("rp%d(nil, 2);", t))
+		case "redecl-funcname":
+			e.add(ind, fmt.Sprintf("%s rf%d() { }", KwFun, t))
+			n.Line = e.add(ind, fmt.Sprintf("%s rf%d = 1;", KwVar, t))
+		case "redecl-self":
+			e.add(ind, fmt.Sprintf("%s rs%d() {", KwFun, t))
+			e.add(ind+1, fmt.Sprintf("%s \"in%d\";", KwPrint, t))
+			n.Line = e.add(ind+1, fmt.Sprintf("%s rs%d = 1;", KwVar, t))
+			e.add(ind+1, fmt.Sprintf("%s \"after%d\";", KwPrint, t))
+			e.add(ind, "}")
+			e.add(ind, fmt.Sprintf("rs%d();", t))
+		case "shadow-builtin-call":
+			e.add(ind, fmt.Sprintf("%s sh%d(%s) {", KwFun, t, FnLen))
+			e.add(ind+1, fmt.Sprintf("%s \"in%d\";", KwPrint, t))
+			n.Line = e.add(ind+1, fmt.Sprintf("%s %s([1, 2]);", KwPrint, FnLen))
+			e.add(ind+1, fmt.Sprintf("%s \"after%d\";", KwPrint, t))
+			e.add(ind, "}")
+			e.add(ind, fmt.Sprintf("sh%d(5);", t))
+		case "return-multiline":
+			n.Line = e.add(ind, KwReturn+" (\n  5 +\n  6\n);")
 		case "break":
 			n.Line = e.add(ind, KwBreak+";")
 		case "continue":
@@ -386,6 +425,39 @@ func (e *skEmit) emitFault(n *skNode, ind int) {
 		n.Line = e.add(ind, fmt.Sprintf("%s a%d = 1, b%d = %s, c%d = %s;", KwVar, t, t, x, t, p))
 	case "return":
 		n.Line = e.add(ind, fmt.Sprintf("%s %s;", KwReturn, x))
+	case "ml-binary":
+		// the fault sits alone on the middle line of a three-line statement
+		first := e.add(ind, fmt.Sprintf("%s 1 +", KwPrint))
+		e.add(ind+1, x+" +")
+		e.add(ind+1, "2;")
+		n.Line = first + 1
+	case "ml-call":
+		first := e.add(ind, "h2(")
+		e.add(ind+1, x+",")
+		e.add(ind+1, p)
+		e.add(ind, ");")
+		n.Line = first + 1
+	case "ml-array":
+		first := e.add(ind, fmt.Sprintf("%s [", KwPrint))
+		e.add(ind+1, "1,")
+		e.add(ind+1, x+",")
+		e.add(ind+1, p)
+		e.add(ind, "];")
+		n.Line = first + 2
+	case "ml-object":
+		first := e.add(ind, fmt.Sprintf("%s mo%d = {", KwVar, t))
+		e.add(ind+1, "ka: 1,")
+		e.add(ind+1, "kb: "+x+",")
+		e.add(ind+1, "kc: "+p)
+		e.add(ind, "};")
+		n.Line = first + 2
+	case "ml-cond":
+		first := e.add(ind, fmt.Sprintf("%s (", KwIf))
+		e.add(ind+1, x)
+		e.add(ind, ") {")
+		e.add(ind+1, fmt.Sprintf("%s \"then%d\";", KwPrint, t))
+		e.add(ind, "}")
+		n.Line = first + 1
 	case "if-cond":
 		n.Line = e.add(ind, fmt.Sprintf("%s (%s) {", KwIf, x))
 		e.add(ind+1, fmt.Sprintf("%s \"then%d\";", KwPrint, t))
@@ -460,7 +532,7 @@ func (v *skEval) one(n *skNode) {
 			return
 		}
 		fmt.Fprintf(&v.out, "q%d[in%d]\n", n.Tag, v.inputs)
-	case "clock", "builtin", "decoy", "mlcomment", "blank":
+	case "clock", "builtin", "decoy", "mlcomment", "blank", "vardecl", "varlist":
 	case "mlstring":
 		fmt.Fprintf(&v.out, "m%d\nmid\nend%d\n", n.Tag, n.Tag)
 	case "rec":
@@ -519,6 +591,10 @@ func (v *skEval) one(n *skNode) {
 		if n.F.Stmt == "" && n.F.Ctx == "for-inc" {
 			fmt.Fprintf(&v.out, "fb%d\n", n.Tag)
 		}
+		switch n.F.Stmt {
+		case "redecl-param", "redecl-nil-param", "redecl-self", "shadow-builtin-call":
+			fmt.Fprintf(&v.out, "in%d\n", n.Tag)
+		}
 		v.faulted = true
 	}
 }
@@ -560,7 +636,14 @@ func (b *skBuilder) fillOne(s Src, depth int, inFunc bool) []*skNode {
 		if k == 5 {
 			return []*skNode{{K: "mlcomment", Tag: b.tag()}}
 		}
-		return []*skNode{{K: "blank", Tag: b.tag()}}
+		switch s.Int("fill6", 0, 2) {
+		case 0:
+			return []*skNode{{K: "blank", Tag: b.tag()}}
+		case 1:
+			return []*skNode{{K: "vardecl", Tag: b.tag()}}
+		default:
+			return []*skNode{{K: "varlist", Tag: b.tag()}}
+		}
 	case 12:
 		return []*skNode{{K: "whiletrue", Tag: b.tag(), Trips: s.Int("trips", 1, 3), Kids: b.filler(s, depth-1, inFunc)}}
 	case 13:
@@ -684,7 +767,7 @@ func c06DrawFault(s Src, chain []string) skFault {
 		switch st {
 		case "break", "continue":
 			ok = !inLoop && !inFunc
-		case "return", "returnval":
+		case "return", "returnval", "return-multiline":
 			ok = !inFunc && !inLoop
 		}
 		if ok {
@@ -883,6 +966,15 @@ func c06Systematic(tier string) []*Case {
 			out = append(out, c06Case(plan, zeroSrc{}, 0, "table:builtin-misuse"))
 		}
 	}
+	// every confirmed operator misuse, rotating through contexts
+	for i, expr := range c06OperatorMisuse {
+		chains := [][]string{nil, {"while"}, {"func-print"}, {"if-then", "for"}, {"func-rec"}}
+		plan := c06Plan{chain: chains[i%len(chains)], fault: skFault{Kind: "operator-misuse", Expr: expr, Ctx: c06StmtCtx[i%5], Probe: c06Probes[i%3]}}
+		if i%4 == 0 {
+			plan.fault.Wraps = []string{c06Wraps[i%len(c06Wraps)]}
+		}
+		out = append(out, c06Case(plan, zeroSrc{}, 0, "table:operator-misuse"))
+	}
 	// programs that perform no invalid operation: no diagnostic, status 0
 	cleanProgs := map[string]string{
 		"empty": "", "newline": "\n", "blank-lines": "\n\n   \n", "line-comment": "// nothing here\n", "block-comment": "/* nothing\n here */\n",
@@ -896,11 +988,16 @@ func c06Systematic(tier string) []*Case {
 	cleanProgs["deep-recursion-600"] = fmt.Sprintf("%s down(n) { %s (n > 0) { %s down(n - 1); } %s 0; }\n%s down(600);\n", KwFun, KwIf, KwReturn, KwReturn, KwPrint)
 	cleanProgs["many-void-calls"] = fmt.Sprintf("%s noop() { }\n%s (%s i = 0; i < 2500; i = i + 1) { noop(); }\n%s \"ok\";\n", KwFun, KwFor, KwVar, KwPrint)
 	cleanProgs["many-objects"] = fmt.Sprintf("%s (%s i = 0; i < 1500; i = i + 1) { %s o = {a: i, b: [i]}; o.a = o.a + 1; }\n%s \"ok\";\n", KwFor, KwVar, KwVar, KwPrint)
+	cleanProgs["param-shadows-builtin"] = fmt.Sprintf("%s f(%s) { %s %s - 1; }\nf(5);\n", KwFun, FnLen, KwPrint, FnLen)
+	cleanProgs["varlist-in-loop"] = fmt.Sprintf("%s (%s i = 0; i < 3; i = i + 1) { %s a = i, b = a + 1; %s b; }\n", KwFor, KwVar, KwVar, KwPrint)
+	cleanProgs["decl-in-while"] = fmt.Sprintf("%s n = 0;\n%s (n < 3) { %s x = n; %s g() { %s x; } n = n + 1; %s g() + 1; }\n", KwVar, KwWhile, KwVar, KwFun, KwReturn, KwPrint)
+	cleanProgs["shadowing"] = fmt.Sprintf("%s x = 1;\n{ %s x = 2; { %s x = 3; %s x; } %s x; }\n%s x;\n%s f(x) { { %s x = 9; } %s x; }\n%s f(4);\n", KwVar, KwVar, KwVar, KwPrint, KwPrint, KwPrint, KwFun, KwVar, KwReturn, KwPrint)
 	cleanProgs["long-while"] = fmt.Sprintf("%s n = 0;\n%s (n < 5000) { n = n + 1; }\n%s n;\n", KwVar, KwWhile, KwPrint)
 	for _, name := range sortedStrKeys(cleanProgs) {
 		prog := cleanProgs[name]
 		want := map[string]string{"dead-fault": "ok\n", "short-circuit": "true\nfalse\n", "zero-trip-loops": "ok\n", "many-returning-calls": "2500\n", "fib-16": "987\n",
-			"deep-recursion-600": "0\n", "many-void-calls": "ok\n", "many-objects": "ok\n", "long-while": "5000\n"}[name]
+			"deep-recursion-600": "0\n", "many-void-calls": "ok\n", "many-objects": "ok\n", "long-while": "5000\n",
+			"param-shadows-builtin": "4\n", "varlist-in-loop": "1\n2\n3\n", "decl-in-while": "1\n2\n3\n", "shadowing": "3\n2\n1\n4\n"}[name]
 		ccfg := scriptCfg(prog, "")
 		ccfg.Budget = 5000000
 		cs := &Case{Prop: "C06", Kind: "clean", Sig: "clean:" + name, Program: prog, FaultKind: "none", Runs: []Run{{Role: "clean", Cfg: ccfg}}}
